@@ -100,6 +100,23 @@ def dec_value(j):
     raise ValueError(j)
 
 
+def norm_default(text):
+    """`DEFAULT ((2))` is reflected as "(2)" and re-emitted as `DEFAULT (2)` (reflected "2"): redundant outer parentheses
+    are not part of the definition"""
+    if text is None:
+        return None
+    s = text.strip()
+    while s.startswith("(") and s.endswith(")"):
+        depth = 0
+        for i, ch in enumerate(s):
+            depth += ch == "("
+            depth -= ch == ")"
+            if depth == 0 and i < len(s) - 1:
+                return s
+        s = s[1:-1].strip()
+    return s
+
+
 def default_value(text):
     """value SQLite stores for a column default written as `text` (simple literals only)"""
     if text is None:
@@ -143,10 +160,15 @@ def create_table_sql(t):
     parts = []
     for c in t["cols"]:
         s = "%s %s" % (q(c["name"]), c["ty"])
+        if c.get("computed"):
+            s += " GENERATED ALWAYS AS (%s) %s" % (c["computed"], "STORED" if c.get("persisted") else "VIRTUAL")
         if not c["nullable"]:
             s += " NOT NULL"
         if c["default"] is not None:
-            s += " DEFAULT %s" % c["default"]
+            # literals as they are, anything else in parentheses (SQLite requires them around an expression)
+            d = c["default"]
+            lit = re.fullmatch(r"-?\d+(\.\d+)?|'(?:[^']|'')*'|NULL|CURRENT_(TIMESTAMP|DATE|TIME)|\(.*\)", d.strip())
+            s += " DEFAULT %s" % (d if lit else "(%s)" % d)
         parts.append(s)
     if t["pk"]:
         pre = "CONSTRAINT %s " % q(t["pk"]["name"]) if t["pk"]["name"] else ""
@@ -182,6 +204,9 @@ def sa_table(t, metadata=None):
         kw = {"nullable": c["nullable"]}
         if c["default"] is not None:
             kw["server_default"] = sa.text(c["default"])
+        if c.get("computed"):
+            args.append(sa.Column(c["name"], sa_type(c["ty"]), sa.Computed(c["computed"], persisted=bool(c.get("persisted"))), **kw))
+            continue
         args.append(sa.Column(c["name"], sa_type(c["ty"]), **kw))
     if t["pk"]:
         args.append(sa.PrimaryKeyConstraint(*t["pk"]["cols"], name=t["pk"]["name"]))
@@ -205,6 +230,23 @@ def observe_table(conn, name, universe=()):
         return _observe_table(conn, name, universe)
 
 
+def generated_expr(sql, colname):
+    """expression and STORED/VIRTUAL of a generated column, read from the stored CREATE TABLE text with balanced
+    parentheses (SQLAlchemy's reflection regex mis-reads it when the column type has parentheses or when ALTER TABLE ADD
+    COLUMN appended another definition on the same line)"""
+    m = re.search(r'(?:^|[\s,(])"?%s"?\s+[^\n]*?GENERATED\s+ALWAYS\s+AS\s*\(' % re.escape(colname), sql, re.I)
+    if not m:
+        return None, False
+    i = m.end()
+    depth, j = 1, i
+    while j < len(sql) and depth:
+        depth += sql[j] == "("
+        depth -= sql[j] == ")"
+        j += 1
+    expr = " ".join(sql[i:j - 1].split())
+    return expr, bool(re.match(r"\s*STORED", sql[j:], re.I))
+
+
 def _observe_table(conn, name, universe=()):
     insp = sa.inspect(conn)
     insp.clear_cache()
@@ -218,8 +260,10 @@ def _observe_table(conn, name, universe=()):
         except Exception:
             tok = "?" + repr(ty)
         cols.append({"name": c["name"], "ty": tok, "aff": type_aff(ty), "nullable": bool(c["nullable"]),
-                     "default": c.get("default"), "dval": default_value(c.get("default")),
-                     "pk": bool(c.get("primary_key"))})
+                     "default": norm_default(c.get("default")), "dval": default_value(c.get("default")),
+                     "pk": bool(c.get("primary_key")),
+                     "computed": " ".join(str(c["computed"]["sqltext"]).split()) if c.get("computed") else None,
+                     "persisted": bool(c["computed"].get("persisted")) if c.get("computed") else False})
     pkc = insp.get_pk_constraint(name)
     pk = {"name": pkc.get("name"), "cols": list(pkc["constrained_columns"])} if pkc and pkc.get("constrained_columns") else None
     # UNIQUE constraints are read from the stored CREATE TABLE text: the inspector collapses two UNIQUE
@@ -230,6 +274,10 @@ def _observe_table(conn, name, universe=()):
                       for m in re.finditer(r"(?:CONSTRAINT (\S+) )?UNIQUE \(([^)]*)\)", sql)),
                      key=lambda u: (u["name"] or "", u["cols"]))
     names = set(universe) | {c["name"] for c in cols}
+    for c in cols:
+        if c.get("computed") is not None:
+            c["computed"], c["persisted"] = generated_expr(sql, c["name"])
+        c["computed_mentions"] = mentions_of(c["computed"], names) if c.get("computed") else []
     checks = sorted(({"name": k.get("name"), "text": k["sqltext"], "mentions": mentions_of(k["sqltext"], names),
                       "pred": parse_pred(k["sqltext"])} for k in insp.get_check_constraints(name)),
                     key=lambda k: (k["name"] or "", k["text"]))
@@ -361,6 +409,13 @@ def apply_op(b, o):
             kw["server_default"] = sa.text(c["default"]) if not c["default"].startswith("'") else c["default"][1:-1].replace("''", "'")
         if c.get("index"):
             kw["index"] = True
+        if c.get("unique"):
+            kw["unique"] = True
+        if c.get("computed"):
+            kw.pop("server_default", None)
+            col = sa.Column(c["name"], sa_type(c["ty"]), sa.Computed(c["computed"], persisted=True))
+            b.add_column(col)
+            return
         col = sa.Column(c["name"], sa_type(c["ty"]), **kw)
         pos = {}
         if o.get("before"):
@@ -387,6 +442,12 @@ def apply_op(b, o):
             kw["server_default"] = None if d is None else (sa.text(d) if not d.startswith("'") else d[1:-1].replace("''", "'"))
         if o.get("comment") is not None:
             kw["comment"] = o["comment"]
+        if o.get("autoincrement") is not None:
+            kw["autoincrement"] = o["autoincrement"]
+        if o.get("existing_nullable") is not None:
+            kw["existing_nullable"] = o["existing_nullable"]
+        if o.get("existing_type_plain"):
+            kw["existing_type"] = sa_type(o["existing_type_plain"])
         et = existing_type_of(o)
         if et is not None:
             kw["existing_type"] = et
@@ -406,6 +467,11 @@ def apply_op(b, o):
         b.create_index(o["name"], o["cols"], unique=o["unique"], **ikw)
     elif k == "drop_index":
         b.drop_index(o["name"])
+    elif k == "table_comment":
+        if o.get("text") is None:
+            b.drop_table_comment()
+        else:
+            b.create_table_comment(o["text"])
     else:
         raise ValueError(k)
 
@@ -434,6 +500,8 @@ def exc_kind(e):
             return "addNotNull"
         if "no such index" in msg:
             return "noSuchIndexDb"
+        if "error in generated column" in msg:
+            return "generatedColumn"
         if "no such table" in msg:
             return "noSuchTable"
         return "operational:" + msg.splitlines()[0][:80]
@@ -485,9 +553,10 @@ class Db:
             for ix in table["indexes"]:
                 conn.exec_driver_sql(index_sql(table["name"], ix))
             if table["rows"]:
-                ph = ", ".join("?" for _ in table["cols"])
-                conn.exec_driver_sql("INSERT INTO %s VALUES (%s)" % (q(table["name"]), ph),
-                                     [tuple(dec_value(v) for v in r) for r in table["rows"]])
+                keep = [i for i, c in enumerate(table["cols"]) if not c.get("computed")]     # generated columns are not inserted
+                conn.exec_driver_sql("INSERT INTO %s (%s) VALUES (%s)" % (
+                    q(table["name"]), ", ".join(q(table["cols"][i]["name"]) for i in keep), ", ".join("?" for _ in keep)),
+                    [tuple(dec_value(r[i]) for i in keep) for r in table["rows"]])
             conn.commit()
 
     def close(self):
@@ -497,7 +566,8 @@ class Db:
             shutil.rmtree(self.dir, ignore_errors=True)
 
 
-def run_batch(db, ops, recreate="always", copy_from=False, fault=None, scope="none", universe=(), tddl=None, fkind="exception"):
+def run_batch(db, ops, recreate="always", copy_from=False, fault=None, scope="none", universe=(), tddl=None, fkind="exception",
+              pr=None, batch_kw=None):
     """Runs the real batch_alter_table.  scope: 'none' (connection not in a transaction: flush opens one
     through _ensure_scope_for_ddl), 'outer' (caller's `with conn.begin()`, rolled back by the exception),
     'swallow' (caller's transaction, exception caught inside it, transaction committed).
@@ -525,7 +595,12 @@ def run_batch(db, ops, recreate="always", copy_from=False, fault=None, scope="no
         ctx = MigrationContext.configure(conn, opts={} if tddl is None else {"transactional_ddl": tddl})
         op = Operations(ctx)
         kw = {"recreate": recreate}
-        if isinstance(copy_from, dict):
+        if pr:
+            kw["partial_reordering"] = tuple(tuple(x) for x in pr)
+        kw.update(batch_kw or {})
+        if isinstance(copy_from, sa.Table):
+            kw["copy_from"] = copy_from
+        elif isinstance(copy_from, dict):
             kw["copy_from"] = sa_table(copy_from)      # an explicit Table (the table under the original name may be gone)
         elif copy_from:
             kw["copy_from"] = sa_table(res["before"]["orig"])
